@@ -379,7 +379,7 @@ class MGridAtLevel(GridAtLevel):
         return reduce(operator.mul, isin, 1)
 
     def resort(self, batched_ar, /):
-        if any(isinstance(g, FlatGrid) and g.ordering == "serial" for g in self.grids):
+        if any(isinstance(g, FlatGridAtLevel) and g.ordering == "serial" for g in self.grids):
             msg = "serial ordering MGrid resort not implemented"
             raise NotImplementedError(msg) # TODO generalize using grids resort
         return super().resort(batched_ar)
